@@ -718,9 +718,22 @@ def random_sop(ck, rng, n_seq):
                     old_real.step(old_opt.loss)
                 kw = dict(kw, restored_from_state_dict_at=i)
                 ck.mark("random.StopOnPlateau/restored-from-state_dict" + ("/while-running" if ref.cont else "/after-stop"))
-            c = int(rng.integers(0, 4))
+            c = int(rng.integers(0, 5))
             # decrease measured in multiples of 2^-k: exact in float32 and float64 for these magnitudes
-            if c == 0:
+            exact_boundary = False
+            if c == 4:
+                # the boundary itself: a decrease of exactly the configured amount is a decrease by that amount (not a failure);
+                # only where the subtraction is exact in the dtype the controller sees
+                decrease = dec
+                cand = float(np.float32(prev - dec)) if form.endswith("f32") else prev - dec
+                pv_ = float(np.float32(prev)) if form.endswith("f32") else prev
+                exact_boundary = dec in (0.5, 1.0, 2.0 ** -4) and (pv_ - cand) == dec and \
+                    (not form.endswith("f32") or float(np.float32(pv_) - np.float32(cand)) == dec)
+                if not exact_boundary:
+                    c = 0
+            if c == 4:
+                pass                                    # decrease = dec exactly (set above)
+            elif c == 0:
                 decrease = dec + unit * float(rng.integers(2, 9)) * 0.5
             elif c == 1:
                 decrease = dec - unit * float(rng.integers(2, 9)) * 0.5
@@ -731,7 +744,9 @@ def random_sop(ck, rng, n_seq):
             new = float(np.float32(prev - decrease)) if form.endswith("f32") else prev - decrease
             pv = float(np.float32(prev)) if form.endswith("f32") else prev
             margin = abs((pv - new) - dec)
-            if margin < 0.25 * unit and not ((pv - new) == 0.0 and dec != 0.0):
+            if exact_boundary:
+                ck.mark("random.StopOnPlateau/decrease-exactly-the-threshold")
+            elif margin < 0.25 * unit and not ((pv - new) == 0.0 and dec != 0.0):
                 new = pv          # equal
                 if dec == 0.0:
                     new = pv + unit
